@@ -79,8 +79,11 @@ Closure(seen, fr, k) == IF k = 0 \/ fr = {} THEN seen \cup fr
                         ELSE Closure(seen \cup fr, (UNION {Succs(s) : s \in fr}) \ (seen \cup fr), k - 1)
 Spellings == Closure({}, {Initial}, MaxRewrites)
 
-\* documents the fixture refers to, relative to the root
-Expected == { [CanonUrl EXCEPT !.segs = SubSeq(@, 1, Len(@) - 1) \o <<"b1">>],
+\* documents the fixture refers to, relative to the root; the root itself is requested as well:
+\* two of the other documents' references lead back to it (by name and through ".."), and the
+\* entry points that take the location alone start by fetching it
+Expected == { CanonUrl,
+              [CanonUrl EXCEPT !.segs = SubSeq(@, 1, Len(@) - 1) \o <<"b1">>],
               [CanonUrl EXCEPT !.segs = SubSeq(@, 1, Len(@) - 1) \o <<"sub", "c1">>] }
 
 \* ---- judging observations [id, loads, sameout, outcome]
